@@ -130,3 +130,11 @@ package jwsutil
 //@   pure
 //@ func (s Signer) Sign(data) (sig, err)
 //@   modifies nothing
+
+// C16: an Ed25519 JWK is read only when its x has the full 32 bytes (the JSON library underneath would
+// pad or truncate another length instead of refusing it)
+//@ func (j *JWK) UnmarshalJSON(jwkBytes) (err)
+//@   requires j != nil
+//@   modifies deref(j)
+//@   let k := jsonDecode(string(jwkBytes), jsonWebKey)
+//@   ensures [okp-width] err == nil && k.Kty == "OKP" && k.Crv == "Ed25519" ==> k.X != nil && len(k.X.data) == 32
